@@ -433,7 +433,7 @@ def check(run):
         "MockProver's view of the circuit (gates, lookups, permutation, fixed columns) is what keygen commits to (C02/C09 territory)",
     ]
     run.outside += ["from_le_bits / from_be_bits with more than 256 input bits (n = 300 measured: > 600 s on both solvers)", "completeness (existence of a witness for every admissible input) beyond the concrete honest runs listed per obligation",
-                    "VectorInstructions and MapGadget (see DESIGN)", "parameters outside the enumerated family"]
+                    "VectorInstructions and MapGadget: part C04_V", "parameters outside the enumerated family"]
     run.bounds += [f"tier={t}: {len(ents)} (operation, parameter) shapes, k=10, NativeGadget over BLS12-381 scalar field, pow2range columns 1..4, max_bit_len 8/9"]
     run.notes.append("Engine C: for each operation the constraint system emitted by the real NativeGadget/NativeChip synthesis is extracted from MockProver and the implication Sys => Spec is decided for all advice/instance assignments by z3-new || cvc5.")
     cengine.run_family(run, "native", ents, timeout=60 if t == "quick" else 600, only=getattr(run, "only", None))
